@@ -19,6 +19,10 @@ var Corpus = [][]string{
 	// disable racing an update that read its defaults earlier: the disable must not be lost
 	{`POST /proxies h {"name":"p1","listen":"127.0.0.1:$A","upstream":"u:1"}`, "||",
 		`POST /proxies/p1 h {"enabled":false}`, `POST /proxies/p1 h {"upstream":"u:2"}`},
+	// a populate replacing a running proxy, racing the re-addressing of another proxy to the
+	// same port: the replacement must not lose its port between its stop and its start
+	{`POST /proxies h {"name":"p1","listen":"127.0.0.1:$A","upstream":"u:1"}`, `POST /proxies h {"name":"p2","listen":"127.0.0.1:$B","upstream":"u:1"}`, "||",
+		`POST /proxies/p2 h {"listen":"127.0.0.1:$A"}`, `POST /populate h [{"name":"p1","listen":"127.0.0.1:$A","upstream":"u:2"}]`},
 	{"||", `POST /proxies h {"name":"p1","listen":"127.0.0.1:$A","upstream":"u:1"}`, `POST /proxies h {"name":"p1","listen":"127.0.0.1:$B","upstream":"u:1"}`,
 		`POST /proxies h {"name":"p2","listen":"127.0.0.1:$A","upstream":"u:1"}`},
 	{`POST /proxies h {"name":"p1","listen":"127.0.0.1:$A","upstream":"u:1"}`, "||", `DELETE /proxies/p1 h -`, `DELETE /proxies/p1 h -`, `DELETE /proxies/p1 h -`},
